@@ -144,6 +144,42 @@ def run_mc(module, cfg, workers=8, timeout=900, xmx="8g", expect_violation=None,
     return res
 
 
+def run_apalache(module, cinit, init, inv, length, expect_violation=False, timeout=900):
+    """Symbolic bounded check with Apalache (used for inductive invariants: length 0 from Init,
+    length 1 from an arbitrary state satisfying the invariant).  Like run_mc, a failure here is a
+    defect of the machinery, not of /repo, unless `expect_violation` (anti-vacuity)."""
+    tag = "%s-%s-%s-%d" % (module, cinit, init, os.getpid())
+    od = outdir("apalache", tag, clean=True)
+    cmd = ["apalache-mc", "check", "--cinit=" + cinit, "--init=" + init, "--inv=" + inv,
+           "--length=%d" % length, "--out-dir=" + od, "--run-dir=" + os.path.join(od, "run"),
+           module + ".tla"]
+    t0 = time.time()
+    try:
+        p = subprocess.run(cmd, cwd=SPEC, stdout=subprocess.PIPE, stderr=subprocess.STDOUT,
+                           text=True, timeout=timeout)
+    except subprocess.TimeoutExpired:
+        shutil.rmtree(od, ignore_errors=True)
+        raise ToolError("Apalache timed out on %s (%s/%s)" % (module, cinit, init))
+    shutil.rmtree(od, ignore_errors=True)
+    out = p.stdout
+    res = {"module": module, "cfg": "apalache --cinit=%s --init=%s --inv=%s --length=%d" % (cinit, init, inv, length),
+           "states": 0, "transitions": 0, "symbolic": True,
+           "wall_s": round(time.time() - t0, 2), "exit": p.returncode}
+    ok = p.returncode == 0 and "The outcome is: NoError" in out
+    bad = p.returncode == 12 and "The outcome is: Error" in out and "invariant" in out
+    if expect_violation:
+        if not bad:
+            sys.stdout.write(out[-3000:])
+            raise ToolError("anti-vacuity Apalache run %s/%s: the induction step was expected to fail" % (module, cinit))
+        res["expected_violation"] = inv
+        return res
+    if not ok:
+        sys.stdout.write(out[-5000:])
+        raise ToolError("Apalache check of %s (%s/%s) failed (exit %d): the specification itself is inconsistent"
+                        % (module, cinit, init, p.returncode))
+    return res
+
+
 def gen_cases(module, cfg, timeout=600, xmx="4g", marker="CASE"):
     """Runs a GEN_* generator spec; returns the JSON payloads of its
     PrintT(<<"CASE", ToJson(..)>>) lines plus TLC's state counts."""
